@@ -341,7 +341,7 @@ func (c *Ctx) verifyFunc(fn *ssa.Function, fc *FuncContract, prop string, forceN
 	for k, v := range vc1.arrSort {
 		vc.arrSort[k] = v
 	}
-	ex := &Exec{vc: vc, fn: fn, prop: prop, pass: 2, nopanic: nopanic, nonil: nonil}
+	ex := &Exec{vc: vc, fn: fn, prop: prop, pass: 2, nopanic: nopanic, nonil: nonil, nilsweep: forceNopanic && c.cf.NilSweep[prop]}
 	ex.indexCalls()
 	ex.preLoops = ex1.loops
 	ex.run()
